@@ -1,0 +1,40 @@
+#pragma once
+
+/*
+ * Verification hooks: compiled in only with -DFEDEDP_LIBMODULE_VERIF.
+ * A monitoring harness provides a strong fededp_verif_point();
+ * without one, the weak no-op below is used.
+ * With the guard off, VERIF_POINT() expands to nothing.
+ */
+#ifdef FEDEDP_LIBMODULE_VERIF
+
+enum fededp_verif_points {
+    VP_THPOOL_WORKER_TOP = 1,       // worker: about to lock the pool
+    VP_THPOOL_WORKER_LOCKED,        // worker: pool locked, about to check the predicate
+    VP_THPOOL_WORKER_WOKEN,         // worker: returned from pthread_cond_wait
+    VP_THPOOL_WORKER_DEQUEUED,      // worker: task dequeued, pool unlocked, about to run it
+    VP_THPOOL_WORKER_TASK_DONE,     // worker: task completed and accounted
+    VP_THPOOL_WORKER_EXIT,          // worker: pool unlocked for the last time, thread is leaving
+    VP_THPOOL_ADD_LOCKED,           // m_thpool_add: pool locked
+    VP_THPOOL_ADD_BEFORE_SIGNAL,    // m_thpool_add: task enqueued, about to signal
+    VP_THPOOL_THREAD_CREATED,       // add_threads: one more worker thread created
+    VP_THPOOL_SHUTDOWN_SET,         // wait_pool: shutdown flag published, pool unlocked
+    VP_THPOOL_BEFORE_JOIN,          // wait_pool: about to join one worker
+    VP_THPOOL_FREE_STAGE,           // m_thpool_free: about to run one teardown stage
+};
+
+#ifdef FEDEDP_VERIF_HOOK_IMPL
+void fededp_verif_point(int id, const void *obj);
+#else
+__attribute__((weak)) void fededp_verif_point(int id, const void *obj) {
+    (void)id;
+    (void)obj;
+}
+#endif
+#define VERIF_POINT(id, obj) fededp_verif_point(id, obj)
+
+#else
+
+#define VERIF_POINT(id, obj) ((void)0)
+
+#endif
